@@ -26,6 +26,9 @@ func (f fileModel) content(path string) string {
 	if f.pad > 0 {
 		g := f
 		g.pad = 0
+		if f.pad%2 == 1 && f.kind != 2 {
+			return "{*" + strings.Repeat("z", f.pad) + "*}" + g.content(path) // the comment in front
+		}
 		return g.content(path) + "{*" + strings.Repeat("z", f.pad) + "*}"
 	}
 	m := fmt.Sprintf("[%s#%d]", path, f.ver)
@@ -58,6 +61,7 @@ type setModel struct {
 }
 
 type c16 struct {
+	editedWhileOpen map[string]bool // files stored again while a reader on them was open (the load may deliver the previous version)
 	env     *sim.Env
 	t       *sim.Tape
 	exts    []string
@@ -165,7 +169,7 @@ func (c *c16) newSet(i int) {
 func (c *c16) setFile(path string, kind int, ref string) {
 	c.vers[path]++
 	f := &fileModel{ver: c.vers[path], kind: kind, ref: ref}
-	f.pad = []int{0, 0, 0, 0, 0, 0, 0, 0, 0, 700, 5000, 70000}[c.t.Choose(12)]
+	f.pad = []int{0, 0, 0, 0, 0, 0, 0, 0, 701, 700, 5001, 5000, 70000}[c.t.Choose(13)]
 	if f.pad > 0 {
 		c.env.Stat("probe:file_longer_than_512_bytes", 1)
 	}
@@ -236,7 +240,7 @@ func (c *c16) checkVersions(sm *setModel, out string, op string) {
 			continue
 		}
 		if sm.dev {
-			if cur == nil || cur.ver != v {
+			if (cur == nil || cur.ver != v) && !(c.editedWhileOpen[p] && cur != nil && v == cur.ver-1) {
 				curv := "deleted"
 				if cur != nil {
 					curv = fmt.Sprint(cur.ver)
@@ -450,6 +454,17 @@ func (c *c16) opExec(sm *setModel, t *jet.Template, name string) {
 		return
 	}
 	c.checkExtOrder(sm, calls, op)
+	// what a template of this world renders is version markers, the block's default text and the angle
+	// brackets around it - nothing else (a comment's bytes, for one, are never rendered)
+	if err == nil && !faultDuringExec {
+		rest := reMarker.ReplaceAllString(buf.String(), "")
+		for _, known := range []string{"dflt", "<", ">"} {
+			rest = strings.ReplaceAll(rest, known, "")
+		}
+		if rest != "" {
+			c.env.Violate("rendered-version", c.mode(sm)+":rendered-bytes-of-no-file", "%s rendered %q: apart from version markers it contains %q, which no version of any file renders\nhistory: %s", op, sim.Clip(buf.String(), 300), sim.Clip(rest, 120), strings.Join(c.hist, " "))
+		}
+	}
 	// every version of every file renders its own version marker (an extending template through its
 	// chain's root): a successful Execute that rendered none executed something no file ever contained
 	if err == nil && !faultDuringExec && reMarker.FindString(buf.String()) == "" {
@@ -530,7 +545,7 @@ func (c *c16) checkVersionsRuntime(sm *setModel, out string, calls []Call, op st
 			continue
 		}
 		cur := c.files[p]
-		if cur == nil || cur.ver != v {
+		if (cur == nil || cur.ver != v) && !(c.editedWhileOpen[p] && cur != nil && v == cur.ver-1) {
 			curv := "deleted"
 			if cur != nil {
 				curv = fmt.Sprint(cur.ver)
@@ -624,10 +639,26 @@ func RunC16(env *sim.Env) {
 		runC16Concurrent(env)
 		return
 	}
-	c := &c16{env: env, t: t, files: map[string]*fileModel{}, vers: map[string]int{}}
+	c := &c16{env: env, t: t, files: map[string]*fileModel{}, vers: map[string]int{}, editedWhileOpen: map[string]bool{}, past: map[string]*fileModel{}}
 	c.exts = extLists[t.Choose(len(extLists))]
 	c.mem = jet.NewInMemLoader()
 	c.loader = NewSimLoader(c.mem)
+	c.loader.OnEditWhileOpen = func(p string) {
+		f := c.files[p]
+		if f == nil {
+			return
+		}
+		// the same kind of file, the next version, without padding (shorter or of the same length: what a
+		// loader that reuses its buffer would overwrite in place)
+		c.vers[p]++
+		nf := &fileModel{ver: c.vers[p], kind: f.kind, ref: f.ref}
+		c.files[p] = nf
+		c.past[fmt.Sprintf("%s#%d", p, nf.ver)] = nf
+		c.mem.Set(p, nf.content(p))
+		c.editedWhileOpen[p] = true
+		c.hist = append(c.hist, fmt.Sprintf("Set(%s#%d)-while-open", p, nf.ver))
+		c.env.Stat("probe:file_stored_again_between_open_and_read", 1)
+	}
 	if t.Choose(4) == 3 {
 		c.loader.DataEOF = true // every reader delivers its last bytes together with io.EOF
 		env.Stat("probe:readers_deliver_last_bytes_together_with_EOF", 1)
@@ -717,7 +748,7 @@ func RunC16(env *sim.Env) {
 			if !c.loader.Off && nFaults < 3 {
 				b := []string{"/a", "/b", "/d/e", "/base"}[t.Choose(4)]
 				if p, ok := c.resolve(b); ok {
-					kind := 1 + t.Choose(6)
+					kind := 1 + t.Choose(7)
 					k := t.Choose(8)
 					if f := c.files[p]; f != nil && f.pad > 0 && t.Choose(2) == 1 {
 						k = t.Choose(len(f.content(p)) + 1) // the read fails somewhere inside a long file
